@@ -185,6 +185,26 @@ def oracle_c10(b, report):
         report('udf-tree', 'UDF tree differs from the one built: missing %s, unexpected %s'
                % (sorted(set(want) - set(got))[:3], sorted(set(got) - set(want))[:3]), None)
         return
+    # every directory's parent entry leads to its parent (the root to itself); Logical Blocks Recorded = blocks the data occupies
+    pstart = rd.udf['partition']['start'] if rd.udf.get('partition') else None
+    stack = [rd.udf['root']]
+    while stack and pstart is not None:
+        d = stack.pop()
+        if d.is_dir:
+            stack.extend(d.children)
+            par = d.parent if d.parent is not None else d
+            want_icb = getattr(par, 'fe_sector', None)
+            got_icb = getattr(d, 'parent_icb', None)
+            if want_icb is not None and got_icb is not None and got_icb != want_icb - pstart:
+                report('udf-parent-icb', 'the parent entry of UDF directory %s designates partition block %d, the File Entry of its parent is at block %d'
+                       % (d.path() or '/', got_icb, want_icb - pstart), None)
+                break
+        if getattr(d, 'inline', None) is None and getattr(d, 'blocks_recorded', None) is not None and d.length is not None:
+            need = (d.length + LBS - 1) // LBS
+            if d.blocks_recorded != need and not (d.length == 0 and d.blocks_recorded in (0, 1)):
+                report('udf-blocks-recorded', 'UDF %s %s records %d logical blocks, its %d bytes occupy %d'
+                       % ('directory' if d.is_dir else 'file', d.path() or '/', d.blocks_recorded, d.length, need), None)
+                break
     # integrity counts and partition length "cover exactly what they describe"
     integ, part = rd.udf.get('integrity'), rd.udf.get('partition')
     if integ and part:
@@ -279,7 +299,12 @@ def oracle_c11(b, report):
                    % (bf, e['load_rba'], node.extents[0][0]), None)
         start = e['load_rba'] * LBS
         if content is not None and not op.get('boot_info_table'):
-            if b.img[start:start + len(content)] != content:
+            cmp_len = len(content)
+            if node is None and b.reopen_points:
+                # a boot file without any name that went through write + open: the format records only the number of 512-byte
+                # sectors to load, so that is all that can be known of it afterwards
+                cmp_len = min(cmp_len, e['sector_count'] * 512)
+            if b.img[start:start + cmp_len] != content[:cmp_len]:
                 report('eltorito-boot-bytes', 'the sector the boot entry for %s points at does not hold the boot file bytes' % bf, None)
         if e['boot_indicator'] != (0x88 if op.get('bootable', True) else 0):
             report('eltorito-boot-indicator', 'boot entry for %s has indicator 0x%02x, bootable=%s was requested'
